@@ -920,7 +920,25 @@ func getEventTime(etHeader string) time.Time {
 			// the default didn't catch it, let's try a few other things
 			// is it all numeric? then try unix epoch times
 			epochInt, err := strconv.ParseInt(etHeader, 0, 64)
-			if err == nil {
+			if len(etHeader) > 10 && isAllDigits(etHeader) {
+				// An integer epoch: the first ten digits are seconds, the rest a
+				// fraction of a second (13 digits milliseconds, 16 microseconds,
+				// 19 nanoseconds). Parse both parts as integers; a float64 cannot
+				// represent such values exactly and shifts the instant, and a
+				// 19-digit value can exceed int64.
+				fraction := etHeader[10:]
+				if len(fraction) > 9 {
+					fraction = fraction[:9] // finer than nanoseconds: truncate
+				}
+				sec, errSec := strconv.ParseInt(etHeader[:10], 10, 64)
+				nsec, errFrac := strconv.ParseInt(fraction, 10, 64)
+				if errSec == nil && errFrac == nil {
+					for i := len(fraction); i < 9; i++ {
+						nsec *= 10
+					}
+					eventTime = time.Unix(sec, nsec)
+				}
+			} else if err == nil {
 				// it might be seconds or it might be milliseconds! Who can know!
 				// 10-digit numbers are seconds, 13-digit milliseconds, 16 microseconds
 				if len(etHeader) == 10 {
@@ -945,6 +963,15 @@ func getEventTime(etHeader string) time.Time {
 		}
 	}
 	return eventTime.UTC()
+}
+
+func isAllDigits(s string) bool {
+	for i := 0; i < len(s); i++ {
+		if s[i] < '0' || s[i] > '9' {
+			return false
+		}
+	}
+	return true
 }
 
 func makeDecoders(concurrency int) (*zstd.Decoder, error) {
